@@ -18,7 +18,9 @@
  *              so RI admits nothing unreachable (no false alarm from an
  *              over-wide pre-state) and _init() establishes RI (base case).
  *  MODE_HIST   black box: _init() then NOPS arbitrary operations, only return
- *              values and iterator output are compared with the queue model.
+ *              values and iterator output are compared with the queue model
+ *              (-DHIST_FIXED_CAP: capacity is the constant CAP, one instance
+ *              per capacity; symbolic capacity is too expensive here).
  *              Independent of RI and of the abstraction function (guards
  *              against an error in those harness-side definitions).
  *
